@@ -19,7 +19,7 @@ RULE = (
 )
 ASSUMPTIONS = [
     "open_deposit_mint and burn_and_withdraw mirror single controller transactions and are held to full atomicity",
-    "memo caches are compared through the public views (C13), not as raw fields",
+    "memo caches are not compared as raw fields; the Aave views a user would read right after a rejected call (health factor, supply / collateral / debt values and listings) are part of the snapshot",
     "negative amounts are outside the generated domain",
 ]
 MIN_NONTRIVIAL = {"quick": 1500, "thorough": 30000}
@@ -48,7 +48,7 @@ def body(case, ctx: Ctx):
             labels.add("cause.insufficient")
         if "not safe" in low or "health factor" in low or "cannot cover" in low:
             labels.add("cause.unsafe")
-        held = any(bool(v) if not isinstance(v, tuple) else any(bool(x) for x in v) for k, v in pre.items() if k not in ("wallet", "_books", "_nact", "_last_tick"))
+        held = any(bool(v) if not isinstance(v, tuple) else any(bool(x) for x in v) for k, v in pre.items() if k not in ("wallet", "_books", "_nact", "_last_tick", "_views"))
         nontrivial = nontrivial or held
         where = f"step {i} {op[2:]} rejected ({msg[:160]})"
         if (op[2], op[3]) in frozen.HELPERS:
